@@ -349,6 +349,8 @@ pub struct WorkerHandle {
     stdin: ChildStdin,
     stdout: BufReader<ChildStdout>,
     based: std::collections::HashSet<String>,
+    /// watchdog for one job (seconds)
+    pub timeout_s: u64,
 }
 
 impl WorkerHandle {
@@ -368,6 +370,7 @@ impl WorkerHandle {
             stdin,
             stdout,
             based: Default::default(),
+            timeout_s: 20,
         }
     }
 
@@ -401,13 +404,14 @@ impl WorkerHandle {
         let _ = self.stdin.flush();
         // watchdog: kill the child if it does not answer in time
         let pid = self.child.id() as i32;
+        let timeout_s = self.timeout_s;
         let done = Arc::new(std::sync::atomic::AtomicBool::new(false));
         let timed_out = Arc::new(std::sync::atomic::AtomicBool::new(false));
         let (d2, t2) = (done.clone(), timed_out.clone());
         let wd = std::thread::spawn(move || {
             let start = std::time::Instant::now();
             while !d2.load(Ordering::Relaxed) {
-                if start.elapsed().as_secs() >= 20 {
+                if start.elapsed().as_secs() >= timeout_s {
                     t2.store(true, Ordering::Relaxed);
                     unsafe {
                         libc::kill(pid, libc::SIGKILL);
